@@ -254,6 +254,29 @@ func c14Run(s *Shard) {
 			}
 		}
 	}
+	// out-of-range parameters are rejected whatever the number of considered alternatives (1, 2)
+	for _, method := range []string{"aspectEliminationHeuristic", "satisfactionHeuristic"} {
+		for _, n := range []int{1, 2} {
+			for _, bad := range []M{{"coefficient": 1.5, "minValue": 0.25, "maxValue": 1.0}, {"coefficient": 0.0, "minValue": 0.25, "maxValue": 1.0}, {"coefficient": 0.5, "minValue": -0.5, "maxValue": 1.0}, {"coefficient": 0.5, "minValue": 0.25, "maxValue": 1.5}} {
+				if !s.Take() {
+					continue
+				}
+				vals := [][]float64{{1, 2}, {2, 1}}[:n]
+				var req M
+				fname := "idealMultipliedCoefficient"
+				if method == "aspectEliminationHeuristic" {
+					req = aeRequest(aeCfg{N: n, Vals: vals, Types: []string{"gain", "cost"}, Weights: []float64{2, 1}, Spec: levelSpec{Fn: fname}, Extra: true})
+				} else {
+					req = satRequest(satCfg{N: n, Vals: vals, Types: []string{"gain", "cost"}, Spec: levelSpec{Fn: fname}, ZVal: 3})
+				}
+				asM(req["methodParameters"])["params"] = bad
+				c := &Case{Prop: "C14", Kind: "wiring", Req: req, Params: M{"method": method, "function": fname, "accept": false}}
+				s.Evals++
+				s.Begin(c)
+				s.Report(c14CheckWiring(c))
+			}
+		}
+	}
 	// wiring through the service, with end-to-end threshold comparison on a small instance grid
 	fnames := []string{"idealMultipliedCoefficient", "idealAdditiveCoefficient", "idealSubtractiveCoefficient", "thresholds"}
 	for _, method := range []string{"aspectEliminationHeuristic", "satisfactionHeuristic"} {
